@@ -24,12 +24,15 @@ def main():
     checks = [prop]
     needs = ""
     tier = "quick"
+    race_demo = False
     a = sys.argv[4:]
     while a:
         if a[0] == "--checks":
             checks = a[1].split(","); a = a[2:]
         elif a[0] == "--needs":
             needs = a[1]; a = a[2:]
+        elif a[0] == "--race-demo":
+            race_demo = True; a = a[1:]
         elif a[0] == "--tier":
             tier = a[1]; a = a[2:]
         else:
@@ -72,7 +75,7 @@ def main():
             ok = True
             out = ""
             for pk in demo_pkgs:
-                race = ["-race"] if any("go:build race" in open(os.path.join(src, f), errors="replace").read() for f in demos if f.endswith(".go")) else []
+                race = ["-race"] if any("go:build race" in open(os.path.join(src, f), errors="replace").read() for f in demos if f.endswith(".go")) or race_demo else []
                 r = sh(["go", "test", "-tags", "seeded_demo", "-vet=off", "-count=1"] + race + ["-run", "^(%s)$" % demo_run, "./" + pk + "/"], repo, timeout=1500)
                 out += r.stdout[-1500:] + r.stderr[-500:]
                 ok = ok and r.returncode == 0
@@ -86,7 +89,18 @@ def main():
         v = sh(["go", "vet"] + ["./" + t + "/" for t in touched], repo)
         meta["builds"] = b.returncode == 0
         meta["vet_clean"] = v.returncode == 0
+        # the repository's own tests run without the demonstration files (a demonstration may leave
+        # process-wide state behind that its neighbours in the package then see)
+        placed = []
+        for pk in demo_pkgs:
+            for f in demos:
+                fp = os.path.join(repo, pk, f)
+                if os.path.isfile(fp):
+                    placed.append((fp, open(fp, "rb").read()))
+                    os.remove(fp)
         t = sh(["go", "test", "-vet=off", "-count=1", "./..."], repo, timeout=1800)
+        for fp, data in placed:
+            open(fp, "wb").write(data)
         fails = [l for l in t.stdout.splitlines() if l.startswith("--- FAIL") and "TestVCS" not in l and "TestCertificateTransparency" not in l
                  and not any(dn in l for dn in demo_run.split("|") if dn)]
         meta["repo_tests_pass_with_patch"] = not fails
